@@ -13,7 +13,7 @@ use std::collections::BTreeMap;
 pub const INFO: PropInfo = PropInfo {
     id: "C13",
     level: "exploration",
-    rule: "cases = (race-free program with <=5 concurrently live processes: pipelines of 1-4 stages (probe lists, cat, gen N, sink, nested subshells), pipefail on/off, asynchronous lists with $! captured, wait / wait PID (also an already-waited and an unknown pid), subshells, command substitutions; schedule set). Schedules: FIFO, then depth-first enumeration of the scheduler's choice vectors up to a budget, then seeded random choosers, all with preemption points on. Oracle per schedule: shell finishes (no deadlock / step bound), per-process probe traces (multiset), stdout lines (multiset), final status and stderr emptiness equal the reference model and therefore equal across schedules; at exit every child of the shell is terminated and reaped. Non-trivial = the program was run under >= 2 distinct choice vectors that differ from FIFO with >= 2 runnable processes at some step; distinct by serialised program.",
+    rule: "cases = (race-free program with <=5 concurrently live processes: pipelines of 1-4 stages (probe lists, cat, gen N, sink, nested subshells), pipefail on/off, asynchronous lists with $! captured, wait / wait PID (also an already-waited and an unknown pid), pipelines whose last stage exits without reading while upstream stages still hold more than the pipes can buffer (writers must end with EPIPE, not block), subshells, command substitutions; schedule set). Schedules: FIFO, then depth-first enumeration of the scheduler's choice vectors up to a budget, then seeded random choosers, all with preemption points on. Oracle per schedule: shell finishes (no deadlock / step bound), per-process probe traces (multiset), stdout lines (multiset), final status and stderr emptiness equal the reference model and therefore equal across schedules; at exit every child of the shell is terminated and reaped. Non-trivial = the program was run under >= 2 distinct choice vectors that differ from FIFO with >= 2 runnable processes at some step; distinct by serialised program.",
     assumptions: &[
         "interleavings exist only at blocking points and at the hook's preemption points (system-call boundaries of wait/read/write); the real OS is not explored",
         "liveness is decided as: no explored schedule deadlocks or exceeds the step bound",
@@ -23,7 +23,7 @@ pub const INFO: PropInfo = PropInfo {
 pub const INFO14: PropInfo = PropInfo {
     id: "C14",
     level: "exploration",
-    rule: "cases = (payload length n around every buffer boundary of the simulated pipe (PIPE_BUF 512, PIPE_SIZE 1024) up to 4x capacity, trailing newlines 0-3, shape: gen|sink, gen|cat{1-3}|sink, x=$(gen), x=$(gen|cat), nested $( $( ) ), here-document into sink, variable echoed into a pipeline; schedule set as in C13). Oracle: bytes received by sink == bytes produced (length, content), $( ) value == payload minus exactly its trailing newlines, here-document body byte for byte, no deadlock, empty stderr, status 0. Non-trivial = n > PIPE_BUF or >= 2 stages, under a non-FIFO schedule; distinct by (n, trailing, shape, schedule).",
+    rule: "cases = (payload length n around every buffer boundary of the simulated pipe (PIPE_BUF 512, PIPE_SIZE 1024) up to 4x capacity, trailing newlines 0-3, shape: gen|sink, gen|cat{1-3}|sink, x=$(gen), x=$(gen|cat), nested $( $( ) ), here-document into sink, variable echoed into a pipeline; standard descriptors 0/1/2 closed with exec beforehand in 6 combinations so that pipe ends land on the standard numbers; schedule set as in C13). Oracle: bytes received by sink == bytes produced (length, content), $( ) value == payload minus exactly its trailing newlines, here-document body byte for byte, no deadlock, empty stderr, status 0. Non-trivial = n > PIPE_BUF or >= 2 stages, under a non-FIFO schedule; distinct by (n, trailing, shape, schedule).",
     assumptions: &[
         "payloads are NUL-free ASCII with embedded newlines (position-dependent pattern, so loss, duplication and reordering all change the content)",
         "interleavings at blocking points and preemption points only",
